@@ -212,7 +212,8 @@ def check_figures(ts, cfg, doc):
                     nfig += 1
                     exp = expected(kind, card_norm(con["card"]), cfg["disable_exact_cardinality"])
                     if not any(abs(float(rs) - 100.0 * e / n) <= tol for e in exp):
-                        fails.append((rc_of(kind), "line %s %s %s ratio %s is none of %r/%d" % (d, p, kind, rs, exp, n)))
+                        fails.append((rc_of(kind, int(round(float(rs) * n / 100.0)), card_norm(con["card"])),
+                                      "line %s %s %s ratio %s is none of %r/%d" % (d, p, kind, rs, exp, n)))
                     if float(rs) > 100 + 1e-9:
                         fails.append((rc_of(kind), "ratio above 100 %%: %s" % rs))
             for com in con["comments"]:
@@ -230,7 +231,8 @@ def check_figures(ts, cfg, doc):
                 elif rs2 is not None:
                     nfig += 1
                     if not any(abs(float(rs2) - 100.0 * e / n) <= tol for e in exp):
-                        fails.append((rc_of(kind), "comment %s %s obj %s ratio %s is none of %r/%d" % (
+                        fails.append((rc_of(kind, int(round(float(rs2) * n / 100.0)), card_norm(com["card"])),
+                                      "comment %s %s obj %s ratio %s is none of %r/%d" % (
                             d, p, kind, rs2, exp, n)))
     return fails, nfig
 
@@ -375,9 +377,8 @@ def check_monotone(ts, cfgs, docs):
                     fails.append((None, "key %r of %s present at threshold %s, absent at %s" % (k, label, thr[j], thr[i])))
             for f, v in facts[j].items():
                 if f in facts[i] and facts[i][f] != v:
-                    if f[3] == "NONLITERAL":
-                        continue       # its figure is a sum over the surviving candidates (C01 findings)
-                    fails.append((None, "figure of %r is %r at threshold %s and %r at %s" % (f, v, thr[j], facts[i][f], thr[i])))
+                    rc = "rc_nonliteral_sum_of_variants" if f[3] == "NONLITERAL" else None
+                    fails.append((rc, "figure of %r is %r at threshold %s and %r at %s" % (f, v, thr[j], facts[i][f], thr[i])))
     # the extremes
     inst, n_of, exp, nl = expected_keys(ts, cfgs[0])
     for i, t in enumerate(thr):
